@@ -1,1 +1,267 @@
-From Tevec Require Import Base.Prelude.
+(* Props/C06.v — property C06: rolling and lagging results never depend on later (or pre-window) data.
+   Statements only.  `ts_out F body w xs` / `out_of (f xs)` is the result vector of a model run (body = true:
+   two-phase index body = caller buffer and Vec / ndarray fast paths; false: iterator body).
+   (A) prefix law, bit for bit: the statements (1)-(4) hold for EVERY carrier because no law of the numeric
+       class is used — in particular at Coq's binary64 `float`, whose evaluation the correspondence run compares
+       with the Rust code; (5)-(6) are about the exact integer carrier and the positional maps.
+   (B) pre-window independence: output i is a function of positions max(0,i-w+1)..=i alone; exact for the
+       extrema / arg-extrema / rank (integer carrier), exact in option R (= up to rounding in binary64, DESIGN
+       5.1/5.2) for the accumulator families.                                                         *)
+From Coq Require Import ZArith List Reals.
+From Tevec Require Import Base.Prelude Base.Num Base.XR Model.Driver Proofs.Driver Model.Features
+     Proofs.Generic Proofs.NoLookahead Proofs.NoLookahead2 Model.Cmp Spec.Extrema Model.Binary Model.Reg
+     Model.MapOps Spec.MapOps.
+Import ListNotations.
+
+(* ---- (A) no look-ahead ------------------------------------------------------------------------------ *)
+(* (1) every add-emit-remove rolling feature (moments, ewm, wma, z-score, and — over the zipped series —
+   cov / corr / regression-on-x, trend regressions), any element type, state, output and carrier *)
+Theorem C06_prefix_every_feature :
+  forall (T St O : Type) (F : feat T St O) (w : nat) (xs : list T) (body : bool) (k : nat),
+    1 <= w -> ts_out F body w (firstn k xs) = firstn k (ts_out F body w xs).
+Proof. exact @ts_out_prefix. Qed.
+
+(* (2) two-series features: the prefix of both series *)
+Theorem C06_prefix_two_series :
+  forall (T1 T2 St O : Type) (F : feat (T1 * T2) St O) (body : bool) (w : nat)
+         (xs : list T1) (ys : list T2) (k : nat),
+    1 <= w ->
+    ts_out F body w (combine (firstn k xs) (firstn k ys)) = firstn k (ts_out F body w (combine xs ys)).
+Proof. exact @two_series_prefix. Qed.
+
+(* (3) slice-form drivers (rolling_custom: fractional differencing), any stateful callback *)
+Theorem C06_prefix_slice_form :
+  forall (T St O : Type) (body : bool) (w : nat) (f : St -> list T -> St * O) (s0 : St) (xs : list T) (k : nat),
+    1 <= w -> custom_out body w f s0 (firstn k xs) = firstn k (custom_out body w f s0 xs).
+Proof. exact @custom_out_prefix. Qed.
+
+(* (4) rolling extrema, arg-extrema and rank: explicit min_periods for every cut, omitted min_periods when both
+   the prefix and the whole series are at least as long as the window (cmp_dom; DESIGN 5.3) *)
+Theorem C06_prefix_ts_vmin :
+  forall (T : Type) (DT : IsNone T Z) (body : bool) (w : nat) (mp : option nat) (xs : list T) (k : nat),
+    1 <= w -> cmp_dom w mp (Nat.min k (length xs)) -> cmp_dom w mp (length xs) ->
+    out_of (ts_vmin body w mp (firstn k xs)) = firstn k (out_of (ts_vmin body w mp xs)).
+Proof.
+  intros T DT body w mp xs k Hw D1 D2.
+  apply (wd_prefix (ts_vmin body w mp) w (cmp_dom w mp) (g_min w mp) (vmin_wd body w mp Hw)).
+  - apply idx_run_nil.
+  - intros _ _. split; assumption.
+Qed.
+
+Theorem C06_prefix_ts_vmax :
+  forall (T : Type) (DT : IsNone T Z) (body : bool) (w : nat) (mp : option nat) (xs : list T) (k : nat),
+    1 <= w -> cmp_dom w mp (Nat.min k (length xs)) -> cmp_dom w mp (length xs) ->
+    out_of (ts_vmax body w mp (firstn k xs)) = firstn k (out_of (ts_vmax body w mp xs)).
+Proof.
+  intros T DT body w mp xs k Hw D1 D2.
+  apply (wd_prefix (ts_vmax body w mp) w (cmp_dom w mp) (g_max w mp) (vmax_wd body w mp Hw)).
+  - apply idx_run_nil.
+  - intros _ _. split; assumption.
+Qed.
+
+Theorem C06_prefix_ts_vargmin :
+  forall (T : Type) (DT : IsNone T Z) (body : bool) (w : nat) (mp : option nat) (xs : list T) (k : nat),
+    1 <= w -> cmp_dom w mp (Nat.min k (length xs)) -> cmp_dom w mp (length xs) ->
+    out_of (ts_vargmin body w mp (firstn k xs)) = firstn k (out_of (ts_vargmin body w mp xs)).
+Proof.
+  intros T DT body w mp xs k Hw D1 D2.
+  apply (wd_prefix (ts_vargmin body w mp) w (cmp_dom w mp) (g_argmin w mp) (vargmin_wd body w mp Hw)).
+  - apply idx_run_nil.
+  - intros _ _. split; assumption.
+Qed.
+
+Theorem C06_prefix_ts_vargmax :
+  forall (T : Type) (DT : IsNone T Z) (body : bool) (w : nat) (mp : option nat) (xs : list T) (k : nat),
+    1 <= w -> cmp_dom w mp (Nat.min k (length xs)) -> cmp_dom w mp (length xs) ->
+    out_of (ts_vargmax body w mp (firstn k xs)) = firstn k (out_of (ts_vargmax body w mp xs)).
+Proof.
+  intros T DT body w mp xs k Hw D1 D2.
+  apply (wd_prefix (ts_vargmax body w mp) w (cmp_dom w mp) (g_argmax w mp) (vargmax_wd body w mp Hw)).
+  - apply idx_run_nil.
+  - intros _ _. split; assumption.
+Qed.
+
+Theorem C06_prefix_ts_vrank :
+  forall (T : Type) (DT : IsNone T Z) (body : bool) (w : nat) (mp : option nat) (pct rev : bool)
+         (xs : list T) (k : nat),
+    1 <= w -> cmp_dom w mp (Nat.min k (length xs)) -> cmp_dom w mp (length xs) ->
+    out_of (ts_vrank (B := XR) body w mp pct rev (firstn k xs))
+    = firstn k (out_of (ts_vrank (B := XR) body w mp pct rev xs)).
+Proof.
+  intros T DT body w mp pct rev xs k Hw D1 D2.
+  apply (wd_prefix (ts_vrank (B := XR) body w mp pct rev) w (cmp_dom w mp) (g_rank w mp pct rev)
+                   (vrank_wd body w mp pct rev Hw)).
+  - apply idx_run_nil.
+  - intros _ _. split; assumption.
+Qed.
+
+(* the scope restriction of DESIGN 5.3 is needed: with omitted min_periods and a series shorter than the
+   window the default min_periods is floor(len/2), which depends on data after the cut *)
+Theorem C06_omitted_min_periods_short_series_depends_on_length :
+  out_of (ts_vmin (A := Z) (DT := IsNone_option) true 6 None (firstn 1 [Some 1; Some 2; Some 3; Some 4]%Z))
+  <> firstn 1 (out_of (ts_vmin (A := Z) (DT := IsNone_option) true 6 None [Some 1; Some 2; Some 3; Some 4]%Z)).
+Proof. vm_compute. discriminate. Qed.
+
+(* (5) positive-lag shift, difference and percentage change *)
+Theorem C06_prefix_shift :
+  forall (X : Type) (n : Z) (v : X) (xs : list X) (k : nat), (0 <= n)%Z ->
+    exists r, shift n v xs = Ok r /\ shift n v (firstn k xs) = Ok (firstn k r).
+Proof. exact @shift_prefix. Qed.
+
+Theorem C06_prefix_vshift :
+  forall (X I : Type) (d : NullDict X I) (n : Z) (value : option X) (v : X) (xs : list X) (k : nat),
+    (0 <= n)%Z -> or_none d value = Ok v ->
+    exists r, vshift d n value xs = Ok r /\ vshift d n value (firstn k xs) = Ok (firstn k r).
+Proof. exact @vshift_prefix. Qed.
+
+Theorem C06_prefix_vdiff :
+  forall (X I : Type) (d : NullDict X I) (sub : X -> X -> X) (n : Z) (value : option X) (v : X)
+         (xs : list X) (k : nat),
+    (0 <= n)%Z -> or_none d value = Ok v ->
+    exists r, vdiff d sub n value xs = Ok r /\ vdiff d sub n value (firstn k xs) = Ok (firstn k r).
+Proof. exact @vdiff_prefix. Qed.
+
+Theorem C06_prefix_vpct_change :
+  forall (X I F : Type) (d : NullDict X I) (o : FOps F) (cast : X -> F) (n : Z) (xs : list X) (k : nat),
+    (forall v, fisnan o (cast v) = is_none d v) -> fisnan o (fnanv o) = true -> (0 <= n)%Z ->
+    exists r, vpct_change d o cast n xs = Ok r /\ vpct_change d o cast n (firstn k xs) = Ok (firstn k r).
+Proof. exact @vpct_change_prefix. Qed.
+
+(* the restriction n >= 0 is needed: a negative lag reads ahead by design *)
+Theorem C06_negative_lag_reads_ahead :
+  exists r, shift (-1)%Z 0%Z [1; 2; 3]%Z = Ok r /\ shift (-1)%Z 0%Z (firstn 2 [1; 2; 3]%Z) <> Ok (firstn 2 r).
+Proof. exact shift_negative_lag_looks_ahead. Qed.
+
+(* ---- (B) no dependence on pre-window data ---------------------------------------------------------- *)
+(* (6) exactly not at all for min, max, arg-extrema and rank: two series (of any lengths, any histories) whose
+   windows at positions i and j coincide give the same output there *)
+Theorem C06_window_only_ts_vmin :
+  forall (T : Type) (DT : IsNone T Z) (body : bool) (w : nat) (mp : option nat) (xs ys : list T) (i j : nat),
+    1 <= w -> cmp_dom w mp (length xs) -> cmp_dom w mp (length ys) -> i < length xs -> j < length ys ->
+    win w i xs = win w j ys ->
+    nth_error (out_of (ts_vmin body w mp xs)) i = nth_error (out_of (ts_vmin body w mp ys)) j.
+Proof.
+  intros T DT body w mp xs ys i j Hw.
+  apply (wd_window (ts_vmin body w mp) w (cmp_dom w mp) (g_min w mp) (vmin_wd body w mp Hw)).
+Qed.
+
+Theorem C06_window_only_ts_vmax :
+  forall (T : Type) (DT : IsNone T Z) (body : bool) (w : nat) (mp : option nat) (xs ys : list T) (i j : nat),
+    1 <= w -> cmp_dom w mp (length xs) -> cmp_dom w mp (length ys) -> i < length xs -> j < length ys ->
+    win w i xs = win w j ys ->
+    nth_error (out_of (ts_vmax body w mp xs)) i = nth_error (out_of (ts_vmax body w mp ys)) j.
+Proof.
+  intros T DT body w mp xs ys i j Hw.
+  apply (wd_window (ts_vmax body w mp) w (cmp_dom w mp) (g_max w mp) (vmax_wd body w mp Hw)).
+Qed.
+
+Theorem C06_window_only_ts_vargmin :
+  forall (T : Type) (DT : IsNone T Z) (body : bool) (w : nat) (mp : option nat) (xs ys : list T) (i j : nat),
+    1 <= w -> cmp_dom w mp (length xs) -> cmp_dom w mp (length ys) -> i < length xs -> j < length ys ->
+    win w i xs = win w j ys ->
+    nth_error (out_of (ts_vargmin body w mp xs)) i = nth_error (out_of (ts_vargmin body w mp ys)) j.
+Proof.
+  intros T DT body w mp xs ys i j Hw.
+  apply (wd_window (ts_vargmin body w mp) w (cmp_dom w mp) (g_argmin w mp) (vargmin_wd body w mp Hw)).
+Qed.
+
+Theorem C06_window_only_ts_vargmax :
+  forall (T : Type) (DT : IsNone T Z) (body : bool) (w : nat) (mp : option nat) (xs ys : list T) (i j : nat),
+    1 <= w -> cmp_dom w mp (length xs) -> cmp_dom w mp (length ys) -> i < length xs -> j < length ys ->
+    win w i xs = win w j ys ->
+    nth_error (out_of (ts_vargmax body w mp xs)) i = nth_error (out_of (ts_vargmax body w mp ys)) j.
+Proof.
+  intros T DT body w mp xs ys i j Hw.
+  apply (wd_window (ts_vargmax body w mp) w (cmp_dom w mp) (g_argmax w mp) (vargmax_wd body w mp Hw)).
+Qed.
+
+Theorem C06_window_only_ts_vrank :
+  forall (T : Type) (DT : IsNone T Z) (body : bool) (w : nat) (mp : option nat) (pct rev : bool)
+         (xs ys : list T) (i j : nat),
+    1 <= w -> cmp_dom w mp (length xs) -> cmp_dom w mp (length ys) -> i < length xs -> j < length ys ->
+    win w i xs = win w j ys ->
+    nth_error (out_of (ts_vrank (B := XR) body w mp pct rev xs)) i
+    = nth_error (out_of (ts_vrank (B := XR) body w mp pct rev ys)) j.
+Proof.
+  intros T DT body w mp pct rev xs ys i j Hw.
+  apply (wd_window (ts_vrank (B := XR) body w mp pct rev) w (cmp_dom w mp) (g_rank w mp pct rev)
+                   (vrank_wd body w mp pct rev Hw)).
+Qed.
+
+(* (7) the accumulator families in exact arithmetic (option R): the incremental sums carry nothing over from the
+   history — hence in binary64 the history can only enter through rounding of the sums (DESIGN 5.1, 5.2) *)
+Theorem C06_window_only_moments :          (* sum, mean, var, std, skew, kurt: any emit function *)
+  forall (emit : @mom XR -> XR) (body : bool) (w : nat) (xs ys : list XR) (i j : nat),
+    1 <= w -> i < length xs -> j < length ys -> win w i xs = win w j ys ->
+    nth_error (ts_out (mom_feat emit) body w xs) i = nth_error (ts_out (mom_feat emit) body w ys) j.
+Proof. exact mom_window_only. Qed.
+
+Theorem C06_window_only_ewm :
+  forall (mp : option nat) (body : bool) (w : nat) (xs ys : list XR) (i j : nat),
+    1 <= w -> i < length xs -> j < length ys -> win w i xs = win w j ys ->
+    nth_error (ts_out (ts_vewm_f w mp) body w xs) i = nth_error (ts_out (ts_vewm_f w mp) body w ys) j.
+Proof. exact ewm_window_only. Qed.
+
+Theorem C06_window_only_wma :
+  forall (mp : option nat) (body : bool) (w : nat) (xs ys : list XR) (i j : nat),
+    1 <= w -> i < length xs -> j < length ys -> win w i xs = win w j ys ->
+    nth_error (ts_out (ts_vwma_f w mp) body w xs) i = nth_error (ts_out (ts_vwma_f w mp) body w ys) j.
+Proof. exact wma_window_only. Qed.
+
+Theorem C06_window_only_cross_sums :       (* cov, corr, regression-on-x alpha / beta / all: any emit function *)
+  forall (O : Type) (emit : @csum XR -> O) (body : bool) (w : nat) (zs zs' : list (XR * XR)) (i j : nat),
+    1 <= w -> i < length zs -> j < length zs' -> win w i zs = win w j zs' ->
+    nth_error (ts_out (csum_feat emit) body w zs) i = nth_error (ts_out (csum_feat emit) body w zs') j.
+Proof. exact @csum_window_only. Qed.
+
+Theorem C06_window_only_trend :            (* ts_vreg, ts_vtsf, slope, intercept, resid_mean: any emit function *)
+  forall (emit : @tr_st XR -> XR) (body : bool) (w : nat) (xs ys : list XR) (i j : nat),
+    1 <= w -> i < length xs -> j < length ys -> win w i xs = win w j ys ->
+    nth_error (ts_out (tr_feat emit) body w xs) i = nth_error (ts_out (tr_feat emit) body w ys) j.
+Proof. exact trend_window_only. Qed.
+
+(* (8) slice forms with a stateless callback (fractional differencing), any carrier, exact *)
+Theorem C06_window_only_slice_form :
+  forall (T O : Type) (body : bool) (w : nat) (g : list T -> O) (xs ys : list T) (i j : nat),
+    1 <= w -> i < length xs -> j < length ys -> win w i xs = win w j ys ->
+    nth_error (custom_out body w (fun (u : unit) l => (u, g l)) tt xs) i
+    = nth_error (custom_out body w (fun (u : unit) l => (u, g l)) tt ys) j.
+Proof. exact @custom_window_only. Qed.
+
+(* non-vacuity: two different histories, the same last window of 2 *)
+Example C06_example_window :
+  nth_error (out_of (ts_vmin (A := Z) (DT := IsNone_option) false 2 (Some 1) [Some 9; None; Some 4; Some 7]%Z)) 3
+  = nth_error (out_of (ts_vmin (A := Z) (DT := IsNone_option) false 2 (Some 1) [Some (-5); Some 4; Some 7]%Z)) 2.
+Proof.
+  apply C06_window_only_ts_vmin; cbn; try lia; try exact I. reflexivity.
+Qed.
+Example C06_example_prefix :
+  ts_out (ts_vsum_f (A := XR) 2 (Some 1)) true 2 (firstn 2 [Some 1%R; None; Some 3%R])
+  = firstn 2 (ts_out (ts_vsum_f (A := XR) 2 (Some 1)) true 2 [Some 1%R; None; Some 3%R]).
+Proof. apply C06_prefix_every_feature. auto. Qed.
+
+Print Assumptions C06_prefix_every_feature.
+Print Assumptions C06_prefix_two_series.
+Print Assumptions C06_prefix_slice_form.
+Print Assumptions C06_prefix_ts_vmin.
+Print Assumptions C06_prefix_ts_vmax.
+Print Assumptions C06_prefix_ts_vargmin.
+Print Assumptions C06_prefix_ts_vargmax.
+Print Assumptions C06_prefix_ts_vrank.
+Print Assumptions C06_omitted_min_periods_short_series_depends_on_length.
+Print Assumptions C06_prefix_shift.
+Print Assumptions C06_prefix_vshift.
+Print Assumptions C06_prefix_vdiff.
+Print Assumptions C06_prefix_vpct_change.
+Print Assumptions C06_negative_lag_reads_ahead.
+Print Assumptions C06_window_only_ts_vmin.
+Print Assumptions C06_window_only_ts_vmax.
+Print Assumptions C06_window_only_ts_vargmin.
+Print Assumptions C06_window_only_ts_vargmax.
+Print Assumptions C06_window_only_ts_vrank.
+Print Assumptions C06_window_only_moments.
+Print Assumptions C06_window_only_ewm.
+Print Assumptions C06_window_only_wma.
+Print Assumptions C06_window_only_cross_sums.
+Print Assumptions C06_window_only_trend.
+Print Assumptions C06_window_only_slice_form.
